@@ -90,6 +90,11 @@ def run(n, events, label, send_fault=None, budget_ok=True):
         return lp, f'{label}: main_loop terminated with {type(ex).__name__}: {ex}'
     if not reached:
         return lp, f'{label}: main_loop returned'
+    S = MODS['ikesa'].IkeSa.State
+    stuck = [e for e in n.b.ike_sas if e.state == S.DELETED]
+    if stuck:
+        return lp, (f'{label}: {len(stuck)} IKE_SA(s) in state DELETED are still listed after the loop came back to wait (their clean-up fails on every '
+                    f'iteration, which also skips the timers of every other IKE_SA)')
     return lp, None
 
 
@@ -251,6 +256,38 @@ def h_oddity(kind):
                         is_initiator=True, message_id=a.my_msg_id, payloads=[], encrypted_payloads=[m.PayloadIDi(1, idd)], crypto=a.my_crypto)
         msg.encrypted_payloads[0].id_type = idt
         data = msg.to_bytes()
+    elif kind in ('child_request_spi_size', 'child_response_spi_size'):
+        # an authenticated peer names a CHILD_SA SPI that is not 4 bytes long (size: case split 0..8), in a request / in its response to OUR request
+        c = eng.sym_int('spi_size', 0, 8)
+        k = eng.concretize(c, 0, 8) if not isinstance(c, int) else c
+        spi = bytes(range(1, k + 1))
+
+        def respi(datagram, crypto_in, crypto_out):
+            msg = m.Message.parse(bytes(datagram), crypto=crypto_in)
+            for pl in msg.encrypted_payloads:
+                if pl.type == m.Payload.Type.SA:
+                    pl.proposals[0].spi = spi
+            out = m.Message(msg.spi_i, msg.spi_r, 2, 0, msg.exchange_type, msg.is_response, False, msg.is_initiator, msg.message_id, [],
+                            msg.encrypted_payloads, crypto=crypto_out)
+            return bytes(out.to_bytes())
+        if kind == 'child_request_spi_size':
+            req = n.acquire('A', sport=9191)
+            data = respi(req, a.my_crypto, a.my_crypto)
+            events = [{'kind': 'udp', 'dst': world.IP2, 'src': str(world.IP1), 'data': data}]
+        else:
+            def answer(loop):
+                req = [d for _, dst, d in loop.outbox if dst[0] == str(world.IP1)][-1]
+                del loop.outbox[:]
+                res = n.dispatch('A', req)
+                return {'kind': 'udp', 'dst': world.IP2, 'src': str(world.IP1), 'data': respi(res, a.my_crypto, a.my_crypto)}
+            events = [{'kind': 'xfrm', 'data': world.acquire_bytes(world.IP2, world.IP1, 2, sport=23, dport=7777)}, answer]
+        lp, bad = run(n, events + [{'kind': 'tick'}, {'kind': 'tick'}, {'kind': 'control'}, peer.answer, peer.answer], f'oddity {kind} (SPI of {k} bytes)')
+        if bad:
+            return {'class': ['oddity', kind], 'violation': bad}
+        bad = world.sad_invariant(n.b, n.B.kernel)
+        if bad:
+            return {'class': ['oddity', kind], 'violation': f'oddity {kind} (SPI of {k} bytes): ' + '; '.join(bad)}
+        return ['oddity', kind, 'survived']
     else:
         raise ValueError(kind)
     hostile = {'kind': 'udp', 'dst': world.IP2, 'src': str(world.IP1), 'data': data}
@@ -333,7 +370,7 @@ def build_instances(tier):
                     continue
                 inst.append(Instance(f'datagram n={nb} src={src} session={pre}', h_datagram, (nb, src, pre), native=nat(h_datagram),
                                      engine_kw={'max_ticks': 3000 + 80 * nb}))
-    for kind in ('unknown_exchange', 'init_for_existing_spi', 'binary_vendor', 'binary_identity', 'init_sa_bytes'):
+    for kind in ('unknown_exchange', 'init_for_existing_spi', 'binary_vendor', 'binary_identity', 'init_sa_bytes', 'child_request_spi_size', 'child_response_spi_size'):
         inst.append(Instance(f'oddity {kind}', h_oddity, (kind,), native=nat(h_oddity), engine_kw={'max_ticks': 20000, 'max_wall_s': 600}))
     for kind in (('acquire', 'expire_known') if tier == 'quick' else ('acquire', 'acquire_unknown_index', 'acquire_unknown_peer', 'expire_unknown', 'expire_known')):
         for vary in ('cut', 'type'):
